@@ -1,5 +1,6 @@
 """C17 — tokenizer: tokens tile the source and carry exact positions (DESIGN §4 C17)."""
 from hir import nodes, fn_body, callee, last, line_of, peel, pp
+import re
 import positions
 import toks
 
@@ -89,7 +90,7 @@ def skip_rules(F, rep, tk):
     n_cb = 0
     for name in tk.order:
         r_ = tk.rules[name]
-        if r_["kind"] != "regex" or "parse()" not in (r_.get("callback") or ""):
+        if r_["kind"] != "regex" or not re.search(r"\.parse\s*(::\s*<[^>]*>)?\s*\(\s*\)", r_.get("callback") or ""):
             continue
         n_cb += 1
         ref = F64 if name == "Float" else r"[0-9]+" if name == "Int" else r"true|false" if name == "Bool" else None
